@@ -195,8 +195,8 @@ def side_init(ctx):
     decide(ctx, "vertices-and-orient", exc, n == 8 and o in hexa.SIDES)
 
 
-@proof("C20", "Block.add_edge", cases=[(-1, 0), (0, -1), (8, 0), (0, 8), (0, 2), (0, 6), (0, 1), (3, 7), (5, 5)],
-       functions=["classy_blocks.items.block:Block.add_edge"])
+@proof("C20", "Block.add_edge", cases=[(a, b) for a in range(-9, 10) for b in range(-9, 10)],
+       functions=["classy_blocks.items.block:Block.add_edge"], note="exhaustive over corner numbers -9..9 x -9..9 (negative numbers would wrap around)")
 def block_add_edge(ctx):
     a, b = ctx.case
     blk = Block(0, vertices(8))
